@@ -23,6 +23,47 @@ func closureFactory(slot int, tag string) any {
 	return func() (*S3, error) { return mk3(tag, true) }
 }
 
+
+// closureDepFactory: closures of ONE function literal per (slot, dependency) pair: registrations using the same pair
+// share the code pointer (and therefore the analysis cache entry) but carry their own tag
+func closureDepFactory(slot, dep int, tag string) any {
+	switch slot*4 + dep {
+	case 0:
+		return func(x *S0) (*S0, error) { return mk0(tag, true, argInst(x)) }
+	case 1:
+		return func(x *S1) (*S0, error) { return mk0(tag, true, argInst(x)) }
+	case 2:
+		return func(x *S2) (*S0, error) { return mk0(tag, true, argInst(x)) }
+	case 3:
+		return func(x *S3) (*S0, error) { return mk0(tag, true, argInst(x)) }
+	case 4:
+		return func(x *S0) (*S1, error) { return mk1(tag, true, argInst(x)) }
+	case 5:
+		return func(x *S1) (*S1, error) { return mk1(tag, true, argInst(x)) }
+	case 6:
+		return func(x *S2) (*S1, error) { return mk1(tag, true, argInst(x)) }
+	case 7:
+		return func(x *S3) (*S1, error) { return mk1(tag, true, argInst(x)) }
+	case 8:
+		return func(x *S0) (*S2, error) { return mk2(tag, true, argInst(x)) }
+	case 9:
+		return func(x *S1) (*S2, error) { return mk2(tag, true, argInst(x)) }
+	case 10:
+		return func(x *S2) (*S2, error) { return mk2(tag, true, argInst(x)) }
+	case 11:
+		return func(x *S3) (*S2, error) { return mk2(tag, true, argInst(x)) }
+	case 12:
+		return func(x *S0) (*S3, error) { return mk3(tag, true, argInst(x)) }
+	case 13:
+		return func(x *S1) (*S3, error) { return mk3(tag, true, argInst(x)) }
+	case 14:
+		return func(x *S2) (*S3, error) { return mk3(tag, true, argInst(x)) }
+	case 15:
+		return func(x *S3) (*S3, error) { return mk3(tag, true, argInst(x)) }
+	}
+	return nil
+}
+
 type ctorObj struct{ tag string }
 
 func (c *ctorObj) New0() (*S0, error) { return mk0(c.tag, true) }
@@ -49,6 +90,12 @@ func kindValue(r *RegCfg) (any, error) {
 	R.fnReg[tag] = r.ID
 	switch r.Kind {
 	case "closure":
+		if len(r.Params) == 1 {
+			if d, ok := slotOfType(r.Params[0].T); ok && r.Params[0].K == "-" && r.Params[0].G == "-" && !r.Params[0].Opt && r.Params[0].B == "-" {
+				return closureDepFactory(r.Slot, d, tag), nil
+			}
+			return nil, fmt.Errorf("reg %s: closure kind supports one plain dependency", r.ID)
+		}
 		return closureFactory(r.Slot, tag), nil
 	case "method":
 		o := &ctorObj{tag}
